@@ -168,6 +168,12 @@ async fn expand(
 ) -> Result<BTreeSet<ElementId>, KipError> {
     let mut seen: BTreeSet<ElementId> = roots.iter().copied().collect();
     let mut frontier: Vec<ElementId> = roots.to_vec();
+    // A reference is content of the member that carries it. For a caller whose
+    // field mask removes `object` from a Proposition, following the object
+    // anyway would put the element it points at into the Capsule, and which
+    // elements a Capsule holds is then the disclosure (§109, §144): the walk
+    // follows what the redacted view shows and nothing else.
+    let masked_reader = cx.authority.carries_field_mask();
 
     for _ in 0..depth {
         let mut next = Vec::new();
@@ -175,7 +181,11 @@ async fn expand(
             let Some(element) = cx.load(id).await? else {
                 continue;
             };
-            for referenced in element.references() {
+            let view = cx.view_of(id);
+            for (member, referenced) in element.references_by_member() {
+                if masked_reader && view.get(member).is_none() {
+                    continue;
+                }
                 if seen.insert(referenced) {
                     next.push(referenced);
                 }
